@@ -159,7 +159,7 @@ namespace crypto {
 		void set_key(key const &k)
 		{
 			if(key_.size()!=0)
-				booster::runtime_error("cppcms::crypto::aes can't set key more then once");
+				throw booster::runtime_error("cppcms::crypto::aes can't set key more then once");
 			if(k.size() != key_size())
 				throw booster::invalid_argument("cppcms::crypto::aes Invalid key size");
 			key_ = k;
@@ -308,7 +308,7 @@ namespace crypto {
 		void set_key(key const &k)
 		{
 			if(key_.size()!=0)
-				booster::runtime_error("cppcms::crypto::aes can't set key more then once");
+				throw booster::runtime_error("cppcms::crypto::aes can't set key more then once");
 			if(k.size() != key_size())
 				throw booster::invalid_argument("cppcms::crypto::aes Invalid key size");
 			key_ = k;
